@@ -2,7 +2,7 @@
 import json, os, subprocess, sys
 import numpy as np
 from .. import core, posecase as pc, seqexec
-from ..mtexec import f64_bits
+from ..mtexec import f64_bits, bits_f64
 from . import c09
 
 LEAN_MODULES = ["PoseVerif.Props.C12"]
@@ -117,6 +117,8 @@ def run(ctx):
             impl = steps[i]
             if 0 in impl["shape"]:
                 break
+            if ms[i]["shape"] == impl["shape"] and "conf" in impl and c09.rounding_zero_only(impl["missing"], ms[i]["missing"], impl["conf"], [bits_f64(x) for x in ms[i]["conf"]], impl["shape"]):
+                ctx.count("rounding_zero_confidence_skips"); break
             if ms[i]["shape"] != impl["shape"] or ms[i]["missing"] != impl["missing"]:
                 ctx.violation("shape / missing pattern after an operation differs from the model's", dict(info, model_ops=mops), {"step": i, "op": mops[i - 1]["k"], "impl_shape": impl["shape"], "model_shape": ms[i]["shape"]}, False); break
 
